@@ -203,6 +203,18 @@ func (c *Ctx) callFunction(fr *frame, st *State, fn *ssa.Function, bindings []*V
 	if fn.Name() == "init" && fn.Pkg != nil && fn.Signature.Recv() == nil && c.W.failedInit[fn.Pkg.Pkg.Path()] {
 		return nil
 	}
+	if fr != nil && fr.fc != nil && len(fr.fc.Asserts) > 0 {
+		c.checkCallSite(fr, st, fn, args, pos)
+	}
+	if fr != nil && fr.fc != nil && len(fr.fc.AbstractCallees) > 0 {
+		short := shortName(name)
+		for _, a := range fr.fc.AbstractCallees {
+			if a == fn.Name() || a == short || strings.HasSuffix(short, "."+a) {
+				c.abstracted("call " + short + " (abstracted by the caller's contract)")
+				return c.havocCall(st, fn.Signature, args, fn.Name(), false)
+			}
+		}
+	}
 	if r, ok := c.intrinsic(st, name, fn, args, pos); ok {
 		return r
 	}
@@ -211,7 +223,10 @@ func (c *Ctx) callFunction(fr *frame, st *State, fn *ssa.Function, bindings []*V
 		return nil
 	}
 	fc := c.W.contracts[name]
-	if fc != nil && fc.hasSpec() && !fc.Inline && !c.W.inlineAll {
+	if fc != nil && (fc.hasSpec() || fc.Trusted) && !fc.Inline && !c.W.inlineAll {
+		if fc.Trusted {
+			c.abstracted("trusted contract " + shortName(name))
+		}
 		return c.applyContract(st, fc, fn, args, pos)
 	}
 	if c.canInline(fn) {
@@ -668,7 +683,18 @@ func (c *Ctx) intrinsic(st *State, name string, fn *ssa.Function, args []*Val, p
 		return nil, true
 	case "sync.Pool.Get":
 		c.abstracted("sync.Pool.Get")
-		return c.havocVal(st, res.At(0).Type(), "poolget"), true
+		v := c.havocVal(st, res.At(0).Type(), "poolget")
+		// a pool only returns what was Put into it (or nil): the dynamic
+		// types come from a scan of every Put on the same pool variable
+		if tags, ok := c.W.poolTypes(fn, args); ok {
+			var alts []*Term
+			alts = append(alts, Eq(v.L[0], Const(32, 0)))
+			for _, t := range tags {
+				alts = append(alts, And(Eq(v.L[0], Const(32, uint64(t))), Neq(v.L[1], Const(32, 0))))
+			}
+			c.assume(st.pc, Or(alts...))
+		}
+		return v, true
 	case "sync.Pool.Put":
 		c.abstracted("sync.Pool.Put")
 		return nil, true
@@ -802,5 +828,48 @@ func (c *Ctx) guardedInit(st *State, fn *ssa.Function) {
 				c.W.unknownGlobal[g] = true
 			}
 		}
+	}
+}
+
+// checkCallSite evaluates the `callsite G: assert P` clauses of the function
+// being executed at a call to G. P sees G's parameter names bound to the
+// actual arguments, and the caller's parameters and local variables.
+func (c *Ctx) checkCallSite(fr *frame, st *State, callee *ssa.Function, args []*Val, pos token.Pos) {
+	full := fullName(callee)
+	short := shortName(full)
+	for _, cs := range fr.fc.Asserts {
+		if !(cs.Callee == callee.Name() || cs.Callee == short || strings.HasSuffix(short, "."+cs.Callee)) {
+			continue
+		}
+		if fr.callCount == nil {
+			fr.callCount = map[string]int{}
+		}
+		k := cs.Callee + "|" + cs.C.Text
+		occ := fr.callCount[k]
+		fr.callCount[k] = occ + 1
+		if cs.Occ >= 0 && cs.Occ != occ {
+			continue
+		}
+		env := c.specEnv(fr, st)
+		env.lookup = c.localLookup(fr, st, token.NoPos)
+		for name, v := range fr.entryVars {
+			env.vars[name] = v
+		}
+		if fr.entry != nil {
+			env.old = fr.entry
+			oe := c.specEnv(fr, fr.entry)
+			oe.vars = fr.entryVars
+			env.oldEnv = oe
+		}
+		for i, p := range callee.Params {
+			if i < len(args) && p.Name() != "" && p.Name() != "_" {
+				env.vars[p.Name()] = args[i]
+			}
+			if i < len(args) {
+				env.vars[fmt.Sprintf("arg%d", i)] = args[i]
+			}
+		}
+		cond := c.evalClause(env, cs.C)
+		c.oblige(st, "callsite", cs.Callee+":"+cs.C.Text, pos, cond)
 	}
 }
